@@ -82,6 +82,14 @@ Theorem C31_at_most_window_served : forall (W : N) (ops : list iop) (hs : list N
 Proof. exact served_at_most_window. Qed.
 Print Assumptions C31_at_most_window_served.
 
+(* When the notified heights never decrease (consecutive, gaps of any size, repeats) the highest
+   height is the height of the last notified block: the window of C31_window is then relative to
+   the most recent notification. *)
+Theorem C31_monotone_top_is_last : forall (bs : list eblock),
+  monoL None bs -> top_height bs = last_height bs.
+Proof. exact mono_top_last. Qed.
+Print Assumptions C31_monotone_top_is_last.
+
 (* ---------------- non-vacuity ---------------- *)
 Definition blk (h : N) : eblock := mkE h (100 + h) (10 * h) [1000 + h] [2000 + h].
 
@@ -109,6 +117,9 @@ Example C31_ex_answers :
   get_block s 102 = None /\ get_tx s 1008 = TxFound 1008 80 2008 /\ get_tx s 1007 = TxNone /\
   get_latest s = (0, Some (blk 9)).
 Proof. vm_compute. repeat split; reflexivity. Qed.
+
+Example C31_ex_mono : monoL None [blk 1; blk 2; blk 2; blk 7; blk 8] /\ last_height [blk 1; blk 2; blk 2; blk 7; blk 8] = Some 8.
+Proof. cbv [monoL blk eh]. repeat split; intros l Hl; try discriminate; injection Hl as <-; lia. Qed.
 
 (* the history of the repaired defect: window 2, 5 6 7 then 5 again.  5 is below the window of 7: it
    is ignored, the latest block stays 7, two heights are served and a restart changes nothing. *)
